@@ -219,6 +219,9 @@ func (e *balEngine) run() {
 	// the token contract's own address is an account like any other: it can be
 	// paid, and nobody holds its witness
 	e.users = append(e.users, balActor{name: "balance-itself", addr: e.bal.BytesBE()})
+	// a deployed contract that throws from its payment callbacks: Balance keeps
+	// balances per address and announces nothing, so it is one more address
+	e.users = append(e.users, balActor{name: "rejector", addr: w.Deploy("rejector", CompileContract(AuxDir("rejector")), nil).Hash.BytesBE()})
 	e.stranger = DetKey("bal/stranger")
 	e.r.Tracef("world n=%d alphabet=%d-of-%d committee=%d-of-%d allowNeg=%v allowBad=%v", n, n*2/3+1, n, n/2+1, n, e.allowNeg, e.allowBad)
 	e.r.Sweep = func() []string {
